@@ -54,6 +54,13 @@ def run(prop, tier):
     rnd = random.Random(seed() * 101 + 3)
     n_obj = 6 if tier == "quick" else 120
     objs = [objdump.assemble(object_source(rnd, k), f"c15o{k}") for k in range(n_obj)]
+    # address layouts: every third object gets a section at a high-half address (objdump then prints the address
+    # flush left, without the leading blanks), another one at an address of 9 hex digits
+    for k in range(0, n_obj, 3):
+        moved = objs[k] + ".moved"
+        subprocess.run(["objcopy", "--change-section-address", ".foo=0xffffffff81000000",
+                        "--change-section-address", ".text.Foo_Bar=0x100000000", objs[k], moved], check=True)
+        objs[k] = moved
     for extra in ("tests/binary/binary_data.bin", "tests/binary/smc.bin") if tier == "thorough" else ():
         p = os.path.join(REPO, extra)
         if os.path.exists(p):
